@@ -130,6 +130,22 @@ def resetState {T : Type} (O : TrieOps T) (m : Module T) (height : Nat) (validat
       | none => kvDel c2 validatedKey
     some { store := c3, currentLocal := sr.root, localHeight := sr.index, mpt := O.reopen sr.root }
 
+/-- store.go:59-88 `AddStateRoot(sr)`: a state root signed by the state validators arrives from the
+network. `verified` = `VerifyStateRoot` succeeded (the previous root is known, exactly one witness, the
+witness verifies against the designated validators of that height). The local record must exist and
+carry the same root (else ErrStateMismatch); a record that already has a witness is left alone; otherwise
+the record is replaced by the signed one and the validated height is stored. The module's trie, current
+local root and local height are not touched. -/
+def addStateRoot {T : Type} (m : Module T) (sr : Rec) (verified : Bool) : Module T :=
+  if !verified then m
+  else
+    match getStateRoot m sr.index with
+    | none => m
+    | some loc =>
+      if loc.root ≠ sr.root then m
+      else if loc.wit ≠ [0] then m                    -- len(local.Witness) != 0
+      else { m with store := kvPut (kvPut m.store (rootKey sr.index) (encRec sr)) validatedKey (le32 sr.index) }
+
 /-! ### histories -/
 
 inductive Op where
@@ -137,6 +153,7 @@ inductive Op where
   | failed (b : List Change)                      -- AddMPTBatch computed, block rejected later: nothing committed
   | reset (h : Nat) (validated : Option Nat)      -- Blockchain.Reset(h) -> ResetState
   | restart                                       -- process restart: Init(current height)
+  | validated (sr : Rec) (verified : Bool)        -- a signed state root from the network: AddStateRoot
 
 /-- module state + the surviving chain of change sets (ghost). `none`: block index beyond uint32. -/
 structure St (T : Type) where
@@ -159,6 +176,8 @@ def step {T : Type} (O : TrieOps T) (s : St T) : Op → Option (St T)
     match init O s.m (s.chain.length - 1) with
     | some m' => some { s with m := m' }
     | none => some s
+  | .validated sr v =>
+    if sr.index < 2 ^ 32 then some { s with m := addStateRoot s.m sr v } else none    -- sr.Index is a uint32
 
 def run {T : Type} (O : TrieOps T) (s : St T) : List Op → Option (St T)
   | [] => some s
